@@ -100,6 +100,7 @@ REGISTRY = {
     "C14": {
         "props_file": "Props/C14.v",
         "gen": ["sites"],
+        "static_finder": ["python3", "/verif/tools/c14_report.py"],
         "harness": [
             {"bin": "log_diff", "model": False, "quick": ["--rounds", "1"], "thorough": ["--rounds", "4"]},
         ],
